@@ -94,3 +94,20 @@ Fixpoint h1_run_connflag (pc : h1conn) (steps : list live_step) : list resp :=
   | (cur, q, _, r) :: rest =>
       let '(r', pc') := h1_exchange_connflag pc cur q r in r' :: h1_run_connflag pc' rest
   end.
+
+(* ---------- the charset step after the decoding decision ---------- *)
+
+(* Transport.RoundTrip runs autoDecodeResponseBody (charset -> UTF-8, property C15) on what the decode
+   decision of the stack returned.  Its guard: `t.disableAutoDecode || res.Header.Get("Content-Encoding")
+   != ""` -> leave alone: a body that still carries a Content-Encoding - ANY non-empty value, decodable by
+   the transport or not - is not text in any charset yet.  NOT the code: a guard that knows an
+   enumerated list of codings only. *)
+Definition charset_step_applies (disable_autodecode : bool) (r : resp) : bool :=
+  negb disable_autodecode && is_empty (header_get (r_ce r)).
+
+Definition known_coding_tokens : list bytes :=
+  [bs "gzip"; bs "x-gzip"; bs "deflate"; bs "br"; bs "zstd"; bs "compress"; bs "x-compress"].
+
+Definition charset_step_applies_listed (disable_autodecode : bool) (r : resp) : bool :=
+  negb disable_autodecode &&
+  negb (existsb (fun t => bytes_eqb (to_lower (header_get (r_ce r))) t) known_coding_tokens).
